@@ -499,3 +499,42 @@ def classify_case(case, st=None):
     lay = s.get('layout') or ['dense']
     tags.append('recipe:%s' % (lay[0] if isinstance(lay[0], str) else lay[0][0]))
     return tags
+
+
+# ---------------------------------------------------------------- the property's domain, in python
+def _is_text(s):
+    return isinstance(s, str) and all(0 < ord(ch) < 0x110000 and not 0xd800 <= ord(ch) < 0xe000 for ch in s)
+
+
+def _column_ok(name, col):
+    if name in RESERVED:
+        return all(isinstance(v, (list, tuple)) and len(v) > 0 and all(_is_text(x) and x for x in v) for v in col)
+    kinds = {type(v) for v in col}
+    return (kinds == {str} and all(_is_text(v) for v in col)) or kinds in ({int}, {float}, {bool})
+
+
+def _md_ok(md, n):
+    if md is None or all(not m for m in md):
+        return True
+    if len(md) != n or not md[0]:
+        return False
+    keys = list(md[0])
+    for k in keys:
+        if not _is_text(k) or k.replace('/', '@@SLASH@@').replace('@@SLASH@@', '/') != k:
+            return False
+    if any(set(m) != set(keys) for m in md):
+        return False
+    return all(_column_ok(k, [m[k] for m in md]) for k in keys)
+
+
+def in_domain(case):
+    """the domain of the C01 / C04 property text (ids distinct text, homogeneous metadata, names that survive
+    the escape, ...), written independently of the Coq predicate in_domainb it is compared with"""
+    s = case['spec']
+    ids_ok = all(_is_text(i) for i in s['oids'] + s['sids']) and len(set(s['oids'])) == len(s['oids']) \
+        and len(set(s['sids'])) == len(s['sids'])
+    gm_ok = all(_is_text(k) and '/' not in k and _is_text(v[0]) and _is_text(v[1])
+                for g in (s.get('ogmd'), s.get('sgmd')) if g for k, v in g.items())
+    opt_ok = (s.get('type') is None or (_is_text(s['type']) and s['type'] != '')) and (s.get('id') is None or _is_text(s['id']))
+    opt_ok = opt_ok and _is_text(case.get('genby', '')) and (case.get('writer') == 'convert' or _is_text(case.get('date', '')))
+    return bool(ids_ok and gm_ok and opt_ok and _md_ok(s.get('omd'), len(s['oids'])) and _md_ok(s.get('smd'), len(s['sids'])))
